@@ -12,6 +12,10 @@ func sanitizeSelectionSet(ctx *PlanningContext, selectionSet ast.SelectionSet, i
 	for _, s := range selectionSet {
 		switch s := s.(type) {
 		case *ast.Field:
+			// the nodes of the document are shared — a fragment definition is expanded at every
+			// spread, a cached plan outlives the request — so the sanitised field is a copy
+			fieldCopy := *s
+			s = &fieldCopy
 			if len(s.SelectionSet) != 0 {
 				childSelectionSet, sf := sanitizeSelectionSet(ctx, s.SelectionSet, append(insertionPoint, s.Alias))
 				scrubFields.Merge(sf)
@@ -67,6 +71,9 @@ func sanitizeSelectionSet(ctx *PlanningContext, selectionSet ast.SelectionSet, i
 }
 
 func sanitizeUnionInlineFragment(ctx *PlanningContext, selectionSet ast.SelectionSet, selection *ast.InlineFragment) ast.SelectionSet {
+	// work on a copy: the fragment node belongs to the (shared) document
+	selectionCopy := *selection
+	selection = &selectionCopy
 	selection.SelectionSet = nil
 	for _, sel := range selectionSet {
 		// when getting the same definition, then unfold it
@@ -85,6 +92,9 @@ func sanitizeUnionInlineFragment(ctx *PlanningContext, selectionSet ast.Selectio
 }
 
 func sanitizeInterfaceInlineFragment(ctx *PlanningContext, selectionSet ast.SelectionSet, selection *ast.InlineFragment) ast.SelectionSet {
+	// work on a copy: the fragment node belongs to the (shared) document
+	selectionCopy := *selection
+	selection = &selectionCopy
 	possibleTypes := ctx.Schema.PossibleTypes[selection.ObjectDefinition.Name]
 
 	// if it's already inlineFragment witch matches possible type condition just sanitize child fields
